@@ -59,3 +59,17 @@ pub fn control_o1_ro_root_writes(d: &mut Dev, buf: &[u8]) -> Result<usize, DevEr
 pub fn control_o2_ro_root_sets_latch(e: &mut CtlEditor) {
     e.dirty = true;
 }
+
+// ---- C14
+/// P3 control: the latch is cleared before the write has succeeded
+pub fn control_p3_clear_before_write(e: &mut CtlEditor, d: &mut Dev, buf: &[u8]) -> Result<(), Error<DevErr>> {
+    if e.dirty {
+        e.dirty = false;
+        Write::write_all(d, buf)?;
+    }
+    Ok(())
+}
+/// P4 control: a flush that does not forward
+pub fn control_p4_flush_impl(d: &mut Dev) -> Result<(), DevErr> {
+    Ok(())
+}
